@@ -180,27 +180,32 @@ def task(cases):
                     return n(xx, cc) if cfg["kind"] != "mlp" else n(xx)
 
             out["n"] += 1
-            # (1) value and buffers against the interpreted stage list
-            torch.manual_seed(5 + kl)
-            with torch.no_grad():
-                y_exp, bufs = interpret(pre, cfg, case["trace"], x, c, mode, act)
-            if differs(y.detach(), y_exp):
-                out["drift"].append("%s: forward value differs from the stage program of Nets.tla (max abs %.3g)" % (ident, float((y.detach() - y_exp).abs().max()) if y.shape == y_exp.shape else -1))
-            # (2) written buffers
-            sd0, sd1 = pre.state_dict(), net.state_dict()
-            written = sorted({(int(n.split(".")[1]), int(n.split(".")[3])) for n in sd1 if "batch_norm_layers" in n and not torch.equal(sd0[n], sd1[n]) and n.split(".")[-1] in ("running_mean", "running_var", "num_batches_tracked")})
-            params_written = [n for n in sd1 if not torch.equal(sd0[n], sd1[n]) and n.split(".")[-1] not in ("running_mean", "running_var", "num_batches_tracked")]
-            want_w = sorted(tuple(w) for w in case["writes"])
-            if mode == "eval" and (written or params_written):
-                out["fails"].append(dict(ident, prop="C13", clause="state_written_in_eval", detail="an evaluation-mode forward of %s wrote %s" % (type(net).__name__, [n for n in sd1 if not torch.equal(sd0[n], sd1[n])][:4])))
-            elif written != want_w or params_written:
-                out["drift"].append("%s: buffers written %s, specification %s (parameters written: %s)" % (ident, written, want_w, params_written[:2]))
-            else:
-                for (b, i), (rm, rv, nbt) in bufs.items():
-                    bn = net.blocks[b].batch_norm_layers[i]
-                    if differs(bn.running_mean, rm) or differs(bn.running_var, rv) or int(bn.num_batches_tracked) != nbt:
-                        out["drift"].append("%s: running statistics of block %d layer %d differ from the momentum rule" % (ident, b, i))
-                        break
+            try:
+                # (1) value and buffers against the interpreted stage list
+                torch.manual_seed(5 + kl)
+                with torch.no_grad():
+                    y_exp, bufs = interpret(pre, cfg, case["trace"], x, c, mode, act)
+                if differs(y.detach(), y_exp):
+                    out["drift"].append("%s: forward value differs from the stage program of Nets.tla (max abs %.3g)" % (ident, float((y.detach() - y_exp).abs().max()) if y.shape == y_exp.shape else -1))
+                # (2) written buffers
+                sd0, sd1 = pre.state_dict(), net.state_dict()
+                written = sorted({(int(n.split(".")[1]), int(n.split(".")[3])) for n in sd1 if "batch_norm_layers" in n and not torch.equal(sd0[n], sd1[n]) and n.split(".")[-1] in ("running_mean", "running_var", "num_batches_tracked")})
+                params_written = [n for n in sd1 if not torch.equal(sd0[n], sd1[n]) and n.split(".")[-1] not in ("running_mean", "running_var", "num_batches_tracked")]
+                want_w = sorted(tuple(w) for w in case["writes"])
+                if mode == "eval" and (written or params_written):
+                    out["fails"].append(dict(ident, prop="C13", clause="state_written_in_eval", detail="an evaluation-mode forward of %s wrote %s" % (type(net).__name__, [n for n in sd1 if not torch.equal(sd0[n], sd1[n])][:4])))
+                elif written != want_w or params_written:
+                    out["drift"].append("%s: buffers written %s, specification %s (parameters written: %s)" % (ident, written, want_w, params_written[:2]))
+                else:
+                    for (b, i), (rm, rv, nbt) in bufs.items():
+                        bn = net.blocks[b].batch_norm_layers[i]
+                        if differs(bn.running_mean, rm) or differs(bn.running_var, rv) or int(bn.num_batches_tracked) != nbt:
+                            out["drift"].append("%s: running statistics of block %d layer %d differ from the momentum rule" % (ident, b, i))
+                            break
+            except T.MachineryError:
+                raise
+            except Exception as e:  # noqa - the interpretation is a model comparison: its failure is drift, the attributes are still measured
+                out["drift"].append("%s: the stage program cannot be interpreted on this network: %s: %s" % (ident, type(e).__name__, str(e)[:120]))
             # (3) attributes
             x2 = x.clone()
             x2[1:] = x2[1:] * 3.0 + 1.7
